@@ -291,7 +291,8 @@ PROPS["C12"] = {
         "pkg": "command", "race": True,
         "tests": [T("TestC12App", {"checks": 60, "shards": 8, "gomaxprocs": [1, 2, 4, 16]}, {"checks": 600, "shards": 16, "gomaxprocs": [1, 2, 4, 16]}),
                   T("TestC12Packet", {"checks": 3, "shards": 8}, {"checks": 30, "shards": 16}),
-                  T("TestC12Socks", {"checks": 4, "shards": 4}, {"checks": 30, "shards": 8})] + [
+                  T("TestC12Socks", {"checks": 4, "shards": 4}, {"checks": 30, "shards": 8}),
+                  T("TestC12Services", {"checks": 6, "shards": 4}, {"checks": 60, "shards": 8})] + [
                   {"name": "TestC12BigSpace", "variant": "big%d" % i, "quick": {"checks": 1, "env": {"C12_BIG": i}}, "thorough": {"checks": 1, "env": {"C12_BIG": i}}}
                   for i in range(4)],
     }, {
